@@ -46,6 +46,19 @@ type Profile struct {
 	// non-empty), whether or not those writes were synced. Used to exclude the
 	// known finding C13/orgd-ingest-visible-without-earlier-unflushed-writes.
 	FlushBeforeIngest bool
+	// NoMergeSdel removes Merge and SingleDelete from the histories (ingested
+	// tables included). ScanInternal documents, in scan_internal.go, that its
+	// point-collapsing iterator must not be used on keyspaces that hold MERGE or
+	// SINGLEDEL keys (it panics by design); every caller respects this.
+	NoMergeSdel bool
+	// NoMotif disables the canned multi-step motifs (see gen.motif).
+	NoMotif bool
+	// BigRecordPct is the percentage of values of 20-90 KB (WAL records spanning
+	// several 32 KiB blocks).
+	BigRecordPct int
+	// SchedPct is the percentage of plans that run with FS-level schedule
+	// perturbation (see schedfs.go); 0 = default (25), negative = never.
+	SchedPct int
 }
 
 type wchoice struct {
@@ -75,7 +88,7 @@ func pick(t *rapid.T, label string, ws []wchoice) string {
 var stepOrder = []string{"write", "get", "scan", "batch", "flush", "iternew", "iterop", "iterclose", "compact", "wait", "crashrestart", "orgd",
 	"snap", "snapread", "snapclose", "bigbatch", "ingest", "restart", "ingestexcise", "excise", "iterclone",
 	"ibnew", "ibop", "ibread", "ibcommit", "ibclose", "efos", "efosread", "efoswait", "efosclose",
-	"checkpoint", "ratchet", "scaninternal", "maint"}
+	"checkpoint", "ratchet", "scaninternal", "maint", "motif"}
 
 var opOrder = []string{"set", "del", "merge", "delrange", "sdel", "delsized", "rkset", "rkunset", "rkdel", "logdata"}
 
@@ -143,9 +156,259 @@ func (g *gen) span(label string) (string, string) {
 	return Prefixes[i], Prefixes[j]
 }
 
+// delSpan draws the bounds of a DeleteRange: mostly bare prefixes, sometimes
+// arbitrary (suffixed) user keys — DeleteRange accepts any start < end.
+func (g *gen) delSpan(label string) (string, string) {
+	if rapid.IntRange(0, 9).Draw(g.t, label+"sfxd") < 7 {
+		return g.span(label)
+	}
+	a, b := g.key(label+"ka"), g.key(label+"kb")
+	if rapid.Bool().Draw(g.t, label+"same") {
+		// both bounds inside one prefix
+		p, _ := splitKey(a)
+		b = mkKey(p, rapid.IntRange(0, MaxSuffix).Draw(g.t, label+"sb"))
+	}
+	switch c := cmpKey(a, b); {
+	case c > 0:
+		a, b = b, a
+	case c == 0:
+		return g.span(label)
+	}
+	return a, b
+}
+
+// wideSpan covers most of the keyspace.
+func (g *gen) wideSpan(label string) (string, string) {
+	i := rapid.IntRange(0, 2).Draw(g.t, label+"a")
+	j := rapid.IntRange(len(Prefixes)-3, len(Prefixes)-1).Draw(g.t, label+"b")
+	return Prefixes[i], Prefixes[j]
+}
+
+// forcedWrite appends a single-op write step of the given kind (falls back to
+// "set" when the profile or format version does not allow the kind).
+func (g *gen) forcedWrite(label, kind string, wide bool) {
+	if g.p.OpW[kind] == 0 || (g.p.NoRangeKeys && (kind == "rkset" || kind == "rkdel")) {
+		kind = "set"
+	}
+	o := Op{K: kind}
+	switch kind {
+	case "set", "merge":
+		o.A = g.key(label + "k")
+		o.V, o.VLen = g.value(label + "v")
+	case "del":
+		o.A = g.key(label + "k")
+	case "delrange", "rkdel":
+		if wide {
+			o.A, o.B = g.wideSpan(label + "sp")
+		} else {
+			o.A, o.B = g.span(label + "sp")
+		}
+	case "rkset":
+		o.A, o.B = g.span(label + "sp")
+		o.S = rapid.IntRange(1, 4).Draw(g.t, label+"rs")
+		g.nval++
+		o.V = fmt.Sprintf("r%d", g.nval)
+	}
+	s := Step{K: "write", Ops: []Op{o}}
+	s.Sync = g.drawSync(label)
+	g.commitOps(s.Ops)
+	g.steps = append(g.steps, s)
+}
+
+// universeKeys lists every point key of the universe in comparer order.
+func universeKeys() []string {
+	var u []string
+	for _, p := range Prefixes {
+		u = append(u, p)
+		for sfx := MaxSuffix; sfx >= 1; sfx-- {
+			u = append(u, mkKey(p, sfx))
+		}
+	}
+	return u
+}
+
+// enabled reports whether the profile generates steps of this kind at all.
+func (g *gen) enabled(kind string) bool { return g.p.W[kind] > 0 }
+
+// motif emits a short canned sequence that builds an LSM situation random
+// single steps rarely reach (data below L0 covered by a newer tombstone with a
+// snapshot in between; several overlapping L0 sublevels over lower levels; ...).
+// Every sub-step goes through the normal generators, so all preconditions hold.
+func (g *gen) motif(label string) {
+	sub := func(i int, kind string) {
+		if !g.enabled(kind) && kind != "wait" {
+			return
+		}
+		switch kind {
+		case "snap":
+			if len(g.snaps) >= g.p.MaxSnaps {
+				return
+			}
+		case "snapread":
+			if len(g.snaps) == 0 {
+				return
+			}
+		case "iternew":
+			if len(g.iters) >= g.p.MaxIters {
+				return
+			}
+		}
+		g.emit(fmt.Sprintf("%sm%d", label, i), kind)
+	}
+	writes := func(i, n int) {
+		for j := 0; j < n; j++ {
+			sub(i*10+j, "write")
+		}
+	}
+	nm := 3
+	if g.p.MaxBatches > 0 && g.enabled("ibop") && g.enabled("iternew") {
+		nm = 5 // the batch-refresh motif, twice as likely
+	}
+	switch rapid.IntRange(0, nm).Draw(g.t, label+"motif") {
+	case 4, 5: // indexed batch mutated under a positioned (possibly limit-paused) batch iterator, then refreshed
+		var bid int
+		if len(g.ibs) > 0 {
+			bid = rapid.SampledFrom(g.ibs).Draw(g.t, label+"bid")
+		} else {
+			bid = g.newID()
+			g.ibs = append(g.ibs, bid)
+			g.steps = append(g.steps, Step{K: "ibnew", ID: bid})
+		}
+		bop := func(l string) {
+			st := Step{K: "ibop", ID: bid}
+			for i, n := 0, rapid.IntRange(1, 3).Draw(g.t, l+"n"); i < n; i++ {
+				st.Ops = append(st.Ops, g.writeOp(fmt.Sprintf("%sb%d", l, i), true))
+			}
+			g.ibOps[bid] = append(g.ibOps[bid], st.Ops...)
+			g.steps = append(g.steps, st)
+		}
+		bop(label + "b1")
+		if len(g.iters) >= g.p.MaxIters && len(g.iters) > 0 {
+			id := g.iters[0]
+			g.iters = remove(g.iters, id)
+			g.steps = append(g.steps, Step{K: "iterclose", ID: id})
+		}
+		it := Step{K: "iternew", ID: g.newID(), On: "batch", ID2: bid}
+		io := g.iterOpts(label + "io")
+		if rapid.Bool().Draw(g.t, label+"plain") {
+			io = IterOpts{KT: KTPoints}
+			if g.p.NoRangeKeys {
+				io.KT = 0
+			}
+		}
+		it.IO = &io
+		it.IOps = g.iterOps(label+"i1", rapid.IntRange(1, 4).Draw(g.t, label+"n1"), true)
+		// end on a limited op so that the iterator is (often) paused at a limit
+		lim := IterOp{Op: rapid.SampledFrom([]string{"seekgel", "seekgel", "seekltl", "nextl", "prevl"}).Draw(g.t, label+"lop"), Limit: g.seekKey(label + "lim")}
+		if lim.Op == "seekgel" || lim.Op == "seekltl" {
+			lim.Key = g.seekKey(label + "lk")
+		}
+		absKey := g.seekKey(label + "ak")
+		// Model-guided variant: use the generation-time model of the batch view to
+		// pick a seek key k, a limit and a parked key P with no visible point in
+		// [k, P), so that the limited seek really pauses; then a key M in [k, limit)
+		// is written to the batch and the iterator is re-sought at or before M
+		// after the refresh.
+		var guided *Op
+		if rapid.Bool().Draw(g.t, label+"guided") {
+			view := g.st.Apply(g.ibOps[bid])
+			uni := universeKeys()
+			var cand [][3]int // (index of k, index of limit, index of P) in uni
+			for pi, pk := range uni {
+				if _, ok := view.Points[pk]; !ok {
+					continue
+				}
+				// walk down from P while keys are invisible
+				for ki := pi - 1; ki >= 0; ki-- {
+					if _, vis := view.Points[uni[ki]]; vis {
+						break
+					}
+					for li := ki + 1; li <= pi; li++ {
+						cand = append(cand, [3]int{ki, li, pi})
+					}
+				}
+			}
+			if len(cand) > 0 {
+				c := cand[rapid.IntRange(0, len(cand)-1).Draw(g.t, label+"cand")]
+				lim = IterOp{Op: "seekgel", Key: uni[c[0]], Limit: uni[c[1]]}
+				m := uni[rapid.IntRange(c[0], c[1]-1).Draw(g.t, label+"m")]
+				g.nval++
+				guided = &Op{K: "set", A: m, V: fmt.Sprintf("v%d", g.nval)}
+				absKey = uni[rapid.IntRange(c[0], c[2]).Draw(g.t, label+"ak2")]
+			}
+		}
+		it.IOps = append(it.IOps, lim)
+		g.iters = append(g.iters, it.ID)
+		g.iterOn[it.ID] = "batch"
+		g.steps = append(g.steps, it)
+		if guided != nil {
+			st := Step{K: "ibop", ID: bid, Ops: []Op{*guided}}
+			g.ibOps[bid] = append(g.ibOps[bid], st.Ops...)
+			g.steps = append(g.steps, st)
+		} else {
+			bop(label + "b2")
+		}
+		op := Step{K: "iterop", ID: it.ID}
+		no := io
+		if rapid.IntRange(0, 2).Draw(g.t, label+"newo") == 0 {
+			no = g.iterOpts(label + "io2")
+		}
+		op.IOps = append(op.IOps, IterOp{Op: "setopts", Opts: &no},
+			IterOp{Op: rapid.SampledFrom([]string{"seekge", "seekge", "seekge", "first", "seeklt", "last", "seekprefixge"}).Draw(g.t, label+"abs"), Key: absKey})
+		op.IOps = append(op.IOps, g.iterOps(label+"i2", rapid.IntRange(0, 4).Draw(g.t, label+"n2"), false)...)
+		g.steps = append(g.steps, op)
+	case 0: // data pushed down, then a covering range deletion (delete-only compaction candidates)
+		writes(1, rapid.IntRange(1, 4).Draw(g.t, label+"n1"))
+		sub(2, "flush")
+		sub(3, "compact")
+		if rapid.Bool().Draw(g.t, label+"sn") {
+			sub(4, "snap")
+		}
+		if g.p.OpW["delrange"] > 0 {
+			g.forcedWrite(label+"dr", "delrange", true)
+		}
+		sub(5, "flush")
+		sub(6, "wait")
+		sub(7, "snapread")
+	case 1: // several overlapping L0 sublevels over a lower level
+		for r := 0; r < rapid.IntRange(2, 4).Draw(g.t, label+"rounds"); r++ {
+			writes(10+r, rapid.IntRange(1, 3).Draw(g.t, fmt.Sprintf("%sn%d", label, r)))
+			sub(20+r, "flush")
+			if r == 0 && rapid.Bool().Draw(g.t, label+"c") {
+				sub(30, "compact")
+			}
+		}
+		sub(40, "iternew")
+	case 2: // point tombstone over older data in a lower level, snapshot in between
+		writes(1, 2)
+		sub(2, "flush")
+		sub(3, "compact")
+		sub(4, "snap")
+		if g.p.OpW["del"] > 0 {
+			g.forcedWrite(label+"d1", "del", false)
+			g.forcedWrite(label+"d2", "del", false)
+		}
+		sub(5, "flush")
+		sub(6, "compact")
+		sub(7, "wait")
+		sub(8, "snapread")
+	default: // ingest under/over existing data then flush
+		writes(1, 2)
+		sub(2, "ingest")
+		writes(3, 2)
+		sub(4, "flush")
+		sub(5, "ingest")
+		sub(6, "wait")
+	}
+}
+
 func (g *gen) value(label string) (string, int) {
 	g.nval++
 	tag := fmt.Sprintf("v%d", g.nval)
+	if g.p.BigRecordPct > 0 && rapid.IntRange(0, 99).Draw(g.t, label+"huge") < g.p.BigRecordPct {
+		// a WAL record that spans several 32 KiB blocks
+		return tag, rapid.IntRange(20000, 90000).Draw(g.t, label+"lh")
+	}
 	cls := rapid.IntRange(0, 19).Draw(g.t, label+"len")
 	if g.p.BigValues && cls < 8 {
 		cls += 10
@@ -212,6 +475,9 @@ func (g *gen) writeOp(label string, longLived bool) Op {
 		if k == "sdel" && longLived {
 			w = 0
 		}
+		if g.p.NoMergeSdel && (k == "sdel" || k == "merge") {
+			w = 0
+		}
 		ws = append(ws, wchoice{k, w})
 	}
 	k := pick(g.t, label+"kind", ws)
@@ -230,8 +496,10 @@ func (g *gen) writeOp(label string, longLived bool) Op {
 		if !g.sdOK(o.A) {
 			o.K = "del"
 		}
-	case "delrange", "rkdel":
+	case "rkdel":
 		o.A, o.B = g.span(label + "sp")
+	case "delrange":
+		o.A, o.B = g.delSpan(label + "sp")
 	case "rkset":
 		o.A, o.B = g.span(label + "sp")
 		o.S = rapid.IntRange(1, 4).Draw(g.t, label+"rs")
@@ -383,7 +651,7 @@ func (g *gen) table(label string, loIdx, hiIdx int) []Op {
 	n := rapid.IntRange(1, 5).Draw(g.t, label+"n")
 	for i := 0; i < n; i++ {
 		l := fmt.Sprintf("%s%d", label, i)
-		kind := pick(g.t, l+"kind", []wchoice{{"set", 10}, {"del", 3}, {"merge", 2}, {"delrange", 2},
+		kind := pick(g.t, l+"kind", []wchoice{{"set", 10}, {"del", 3}, {"merge", ifz(g.p.NoMergeSdel, 0, 2)}, {"delrange", 2},
 			{"rkset", ifz(g.p.NoRangeKeys, 0, 2)}, {"rkunset", ifz(g.p.NoRangeKeys, 0, 1)}, {"rkdel", ifz(g.p.NoRangeKeys, 0, 1)}})
 		switch kind {
 		case "set", "del", "merge":
@@ -408,6 +676,15 @@ func (g *gen) table(label string, loIdx, hiIdx int) []Op {
 			a := rapid.IntRange(loIdx, shi-1).Draw(g.t, l+"a")
 			b := rapid.IntRange(a+1, shi).Draw(g.t, l+"b")
 			o := Op{K: kind, A: Prefixes[a], B: Prefixes[b]}
+			if kind == "delrange" && rapid.IntRange(0, 9).Draw(g.t, l+"sfxd") < 3 {
+				// suffixed bounds; every key stays below Prefixes[hiIdx] (the table's window)
+				b2 := rapid.IntRange(a, hiIdx-1).Draw(g.t, l+"b2")
+				o.A = mkKey(Prefixes[a], rapid.IntRange(0, MaxSuffix).Draw(g.t, l+"sa"))
+				o.B = mkKey(Prefixes[b2], rapid.IntRange(0, MaxSuffix).Draw(g.t, l+"sb"))
+				if cmpKey(o.A, o.B) >= 0 {
+					continue
+				}
+			}
 			if kind == "delrange" {
 				// range deletions of one table must not overlap (pre-fragmented input)
 				ok := true
@@ -529,11 +806,20 @@ func Generate(t *rapid.T, p Profile) Plan {
 	if p.CrashGen != nil {
 		cp = p.CrashGen(t, g.opt)
 	}
+	var sp *SchedPlan
+	spct := p.SchedPct
+	if spct == 0 {
+		spct = 25
+	}
+	if spct > 0 && rapid.IntRange(0, 99).Draw(t, "schedon") < spct {
+		sp = &SchedPlan{Salt: rapid.IntRange(1, 1<<20).Draw(t, "schedsalt"), Pct: rapid.SampledFrom([]int{10, 30, 60}).Draw(t, "schedpct"),
+			Max: rapid.SampledFrom([]int{4, 30, 200}).Draw(t, "schedmax")}
+	}
 	n := rapid.IntRange(p.MinSteps, p.MaxSteps).Draw(t, "nsteps")
 	for i := 0; i < n; i++ {
 		g.step(fmt.Sprintf("s%d", i))
 	}
-	return Plan{Profile: p.Name, Opt: g.opt, Steps: g.steps, Crash: cp}
+	return Plan{Profile: p.Name, Opt: g.opt, Steps: g.steps, Crash: cp, Sched: sp}
 }
 
 func (g *gen) readerChoice(label string) (string, int) {
@@ -597,10 +883,24 @@ func (g *gen) step(label string) {
 			if g.fmv() < pebble.FormatVirtualSSTables {
 				w = 0
 			}
+		case "motif":
+			if w == 0 && !g.p.NoMotif {
+				w = 3
+			}
 		}
 		ws = append(ws, wchoice{k, w})
 	}
 	kind := pick(g.t, label+"kind", ws)
+	if kind == "motif" {
+		g.motif(label)
+		return
+	}
+	g.emit(label, kind)
+}
+
+// emit generates one step of the given kind (the caller has checked that the
+// kind is enabled in the current generator state).
+func (g *gen) emit(label, kind string) {
 	s := Step{K: kind}
 	switch kind {
 	case "write":
@@ -681,6 +981,13 @@ func (g *gen) step(label string) {
 	case "snap":
 		s.ID = g.newID()
 		g.snaps = append(g.snaps, s.ID)
+		if rapid.IntRange(0, 3).Draw(g.t, label+"then") == 0 {
+			// a commit immediately after the snapshot gets exactly the snapshot's
+			// sequence number: the boundary case of every "visible at snapshot" test.
+			g.steps = append(g.steps, s)
+			g.forcedWrite(label+"w", rapid.SampledFrom([]string{"delrange", "delrange", "del", "set", "merge", "rkset", "rkdel"}).Draw(g.t, label+"thenk"), true)
+			return
+		}
 	case "snapclose":
 		s.ID = rapid.SampledFrom(g.snaps).Draw(g.t, label+"id")
 		g.snaps = remove(g.snaps, s.ID)
